@@ -12,8 +12,8 @@ PROPERTIES = ["C19"]
 MANIFEST = {
     "C19": {
         "technique": "Lean 4 proof + tie by translation (tools/gen_path.py translates the bodies of File::getDirectoryName/getBaseName/getStem/getExtension/isAbsolutePath/simplifyPath of the CURRENT src/File.cpp and the entry-type decision of Directory::unlink of the CURRENT src/Directory.cpp into Lean on every run; theorems `translated body = model function` for all of them) about (a) a model of the path scanners of File.cpp with a stack-machine denotation of path strings and (b) a model of the File/Directory algorithms over an assumed POSIX-like world (flat tree: directory | file bytes | symbolic link) + differential correspondence model vs real File.cpp/Directory.cpp (exhaustive small strings; scratch-directory snapshots with an outside sentinel, interposed sendfile/mkdir faults, ASan/UBSan) + independent Python reference (own stack machine cross-checked with posixpath; own kernel-like resolver and byte-array file semantics evaluating the laws of C19 on the implementation's observations)",
-        "text": "Theorems for ALL path strings: simplifyPath returns the canonical text of the denotation (hence idempotent, denotation preserving, deciding lexical equivalence), directory+separator+base name and stem+'.'+extension recompose, getRelativePath(from,to) appended to from denotes to exactly when a relative path exists lexically and is empty otherwise (the hypothesis is proved necessary). Theorems for ALL worlds / path strings / injected faults of the file-system model: scripts of write/seek/readAll/size on a File refine a byte array with position; File::open(write[|append]) + writes + File::readAll(path) returns exactly the written bytes (after the old ones when appending); successful copy and rename carry exactly the bytes, and they do succeed when nothing is in the way (copy_succeeds, rename_succeeds); failed open/rename/copy (without an injected transfer fault) leave the tree unchanged; failed open/rename/copy leave no new entry (copy: except a transfer fault through a symlinked destination, spelled out); Directory::create returns true iff the directory exists afterwards, then all parents exist, it only adds directories, and it succeeds when only directories are in the way; Directory::unlink on EVERY path string only removes entries inside the directory the path resolves to (never follows a symbolic link of the tree; nothing changes when the path does not name a directory), and recursive unlink of an existing plain directory in a well-formed world succeeds and removes exactly the tree; every history of operations (the driver's state transitions are the proved `fsApply`) keeps the world well-formed (wf_run), so these hold after any history; Directory::read lists exactly the entries; rename of a directory moves exactly its subtree; on the POSIX build a backslash is a separator for the path functions (backslash_is_separator). Extension round: the decompositions getDirectoryName/getBaseName and getStem/getExtension return are the only ones of their shape (dir_base_unique, stem_ext_unique); File::read(buffer, n) is part of the proved File script; File::exists / Directory::exists / File::time answer exactly what the world has (exists_truthful, exists_plain, exists_consistent); getAbsolutePath(p) resolves to what p resolves to, also from the working directory after Directory::change (absolute_path_truthful, change_then_absolute_truthful); Directory::unlink with ANY d_type reporting of readdir (DT_UNKNOWN oracle, repaired code asks lstat) only removes entries inside the directory the path resolves to and keeps the world well-formed (unlink_any_dtype_stays_in_resolved_tree), and is the proved Directory::unlink when the type is reported; the hand-written wildcard matcher szWildMatch7 of Directory.cpp decides the declarative glob semantics (= segmentation of the name) for all patterns and names and terminates (szWildMatch7_is_glob, szWildMatch7_terminates), the fnmatch model used for the POSIX branch decides the same semantics (fnmatch_model_is_glob). Second extension round: Directory::read with a pattern / dirsOnly on a file system with any d_type reporting lists exactly the full listing filtered by the glob and the directory flag (listing_is_filtered_full_listing for all path strings, listing_pattern_exact for plain directories); Directory::unlink with any d_type reporting IS the proved Directory::unlink on plain paths of well-formed worlds, so recursive unlink removes exactly the tree on every file system (unlink_any_dtype_is_unlink, unlink_any_dtype_removes_exactly_tree); getBaseName/getStem with an extension strip exactly a matching suffix (base_ext_spec), root-level paths split at the separator at index 0 (root_level_split), dir + '/' + base simplifies like the argument (dir_base_simplify); failing lseek calls in File::size/seek/readAll are operations of the proved File script, a failing append lseek in File::open and the ERANGE loop of getCurrentDirectory are modelled as environment choices (size_with_failing_lseek, open_with_failing_append_seek, getcwd_loop_answers); File::isExecutable = Directory::exists in the closed world (isExecutable_closed_world). Round 7: TRANSLATED, not hand-translated: the bodies of getDirectoryName, getBaseName (incl. `goto removeExtension` and both extension branches), getStem, getExtension and isAbsolutePath are regenerated from the current src/File.cpp into Nstd/Generated/PathScan.lean and proved equal to the model functions for every string and every fuel >= length + 1 (getDirectoryName_translated, getBaseName_translated, getStem_translated, getExtension_translated, isAbsolutePath_translated): the translated code never reads outside the buffer (terminator included), never wraps a usize, terminates, and returns the model's value — so the decomposition theorems speak about the current C++ text. simplifyPath is translated as well and proved equal to the model for every string (simplifyPath_translated: the component loop folds the model's sstep over chunks, the look-back loop is lookBack), so simplify_canonical/idem/equiv speak about the current C++ text; before translation static bool helper functions are inlined, written-out C-string comparisons normalised and the control flow brought into a canonical form (negation normal form of conditions, `for(;;) if(A){B;break;}` -> `while(!A); B`, a flag variable tested once -> goto), so behaviour-preserving restructurings of that kind keep the proof. The entry-type decision of the recursive Directory::unlink (d_type == DT_DIR, DT_UNKNOWN -> lstat + S_ISDIR, skip ./.., recurse vs File::unlink) is translated from the current src/Directory.cpp (tools/gen_path_unlink.py) and proved to be the decision of the model the never-follows-symlinks theorems are about (unlink_decision_translated, unlink_type_test_is_lstat: the type test does not follow links). File/Directory object life cycle (Obj.lean): for every history of open/close/isOpen/destructor on any number of objects, interleaved with File::copy under every fault and with every answer of the system calls inside open, an object is open iff it holds an open descriptor of the process, every descriptor of the process belongs to exactly one object (no_descriptor_leak; none once all objects are closed or destroyed), close is idempotent, a second open is refused and touches nothing, a failed open leaves nothing behind (lifecycle_invariant, isOpen_iff_holds_descriptor, close_idempotent, open_on_open_refused, open_result, copy_holds_nothing). The models are tied to the current sources on every run by executing identical op lines on model and real code (the object ops compare the number of open descriptors of the harness process after every item).",
-        "note": "Trusted: Lean kernel + propext/Classical.choice/Quot.sound; the translator tools/gen_path.py and its semantics of the C++ subset (pointers = offsets into a statically determined String, usize = Int with a non-negativity test, reads defined for 0 <= offset <= length, uninitialised locals rejected by a definite-assignment analysis, the three control-flow normalisations and the helper inlining are part of the trusted translator, String(p,n)/substr/String::compare(p,q)==0/append/shrinking resize = the Lean definitions of Nstd/Path/Cxx.lean — ASSUMED, subject of C06; strings hold no NUL); the HAND translation of everything else: getRelativePath, getAbsolutePath in Model.lean, all of FsLib.lean/FsMore.lean (File/Directory algorithms, POSIX branches, with fixes/path/*.patch applied) and Obj.lean (object life cycle) — validated by the correspondence run, not proved; a refusal of any of the six bodies or of the unlink decision is a broken tie; of Directory::unlink only the four deciding statements are translated (regular-expression shape match on the POSIX branch), the loop around them (readdir, error paths, final rmdir) is hand-translated; Obj.lean ASSUMES that descriptors 0, 1, 2 stay open (a successful ::open returning 0 would read as closed: the field stores the descriptor itself) and abstracts descriptor numbers (any unused number >= 3); the POSIX semantics of mkdir/rmdir/unlink/rename/open/readdir/stat/lstat/lseek/read/write/sendfile/symlink is ASSUMED: it is the Lean definition in Nstd/Path/Fs.lean and is compared with the real kernel (ext4/tmpfs under $TMPDIR) only through the snapshots of the correspondence run. Hypotheses of the unlink theorems: a plain path to the directory (its parent chain consists of real directories; links INSIDE the tree are arbitrary) and a well-formed world (names are names, no path stored twice, parents are directories) — the latter is proved for every history (wf_run) and additionally checked on every model state the run reaches; the model keeps the working directory and its ancestors (rmdir/rename of them are rejected), plain path (its parent chain consists of real directories; links INSIDE the tree are arbitrary). libc fnmatch is ASSUMED to behave as fnmatchM for patterns without '[' and '\\' (other patterns are not run). Residual stated as a theorem, not repaired: when the lseek of File::open's append branch fails, a file made by O_CREAT stays although open answers false; File::size whose restoring lseek fails leaves the position at the end. File::isExecutable is modelled only for the modes the library itself creates (0755 directories, 0644 files; the harness sets umask 022). Only tested by the correspondence, not proved: File::write(buffer,len) count, flush, getTempDirectory/getHomeDirectory, the time stamps of File::time, the harness-side fault interposition (sendfile, mkdir, readdir d_type, lseek, getcwd). szWildMatch7 belongs to the _WIN32 branch: its TEXT is cut out of the current Directory.cpp and compiled into the harness; the model assumes toLowerCase(x) != toLowerCase(0) for name bytes x != 0. The assumed kernel splits path strings at '/' only (a backslash is part of a name; Directory::create as repaired by fix 0010 does the same on POSIX) and rmdir answers EINVAL/ENOTEMPTY for a last component '.'/'..'. Outside: permissions, d_type == DT_UNKNOWN file systems, hard links, files unlinked/renamed while open, concurrent modification, the other Windows branches, paths climbing above the scratch world, isExecutable, getcwd longer than PATH_MAX.",
+        "text": "Theorems for ALL path strings: simplifyPath returns the canonical text of the denotation (hence idempotent, denotation preserving, deciding lexical equivalence), directory+separator+base name and stem+'.'+extension recompose, getRelativePath(from,to) appended to from denotes to exactly when a relative path exists lexically and is empty otherwise (the hypothesis is proved necessary). Theorems for ALL worlds / path strings / injected faults of the file-system model: scripts of write/seek/readAll/size on a File refine a byte array with position; File::open(write[|append]) + writes + File::readAll(path) returns exactly the written bytes (after the old ones when appending); successful copy and rename carry exactly the bytes, and they do succeed when nothing is in the way (copy_succeeds, rename_succeeds); failed open/rename/copy (without an injected transfer fault) leave the tree unchanged; failed open/rename/copy leave no new entry (copy: except a transfer fault through a symlinked destination, spelled out); Directory::create returns true iff the directory exists afterwards, then all parents exist, it only adds directories, and it succeeds when only directories are in the way; Directory::unlink on EVERY path string only removes entries inside the directory the path resolves to (never follows a symbolic link of the tree; nothing changes when the path does not name a directory), and recursive unlink of an existing plain directory in a well-formed world succeeds and removes exactly the tree; every history of operations (the driver's state transitions are the proved `fsApply`) keeps the world well-formed (wf_run), so these hold after any history; Directory::read lists exactly the entries; rename of a directory moves exactly its subtree; on the POSIX build a backslash is a separator for the path functions (backslash_is_separator). Extension round: the decompositions getDirectoryName/getBaseName and getStem/getExtension return are the only ones of their shape (dir_base_unique, stem_ext_unique); File::read(buffer, n) is part of the proved File script; File::exists / Directory::exists / File::time answer exactly what the world has (exists_truthful, exists_plain, exists_consistent); getAbsolutePath(p) resolves to what p resolves to, also from the working directory after Directory::change (absolute_path_truthful, change_then_absolute_truthful); Directory::unlink with ANY d_type reporting of readdir (DT_UNKNOWN oracle, repaired code asks lstat) only removes entries inside the directory the path resolves to and keeps the world well-formed (unlink_any_dtype_stays_in_resolved_tree), and is the proved Directory::unlink when the type is reported; the hand-written wildcard matcher szWildMatch7 of Directory.cpp decides the declarative glob semantics (= segmentation of the name) for all patterns and names and terminates (szWildMatch7_is_glob, szWildMatch7_terminates), the fnmatch model used for the POSIX branch decides the same semantics (fnmatch_model_is_glob). Second extension round: Directory::read with a pattern / dirsOnly on a file system with any d_type reporting lists exactly the full listing filtered by the glob and the directory flag (listing_is_filtered_full_listing for all path strings, listing_pattern_exact for plain directories); Directory::unlink with any d_type reporting IS the proved Directory::unlink on plain paths of well-formed worlds, so recursive unlink removes exactly the tree on every file system (unlink_any_dtype_is_unlink, unlink_any_dtype_removes_exactly_tree); getBaseName/getStem with an extension strip exactly a matching suffix (base_ext_spec), root-level paths split at the separator at index 0 (root_level_split), dir + '/' + base simplifies like the argument (dir_base_simplify); failing lseek calls in File::size/seek/readAll are operations of the proved File script, a failing append lseek in File::open and the ERANGE loop of getCurrentDirectory are modelled as environment choices (size_with_failing_lseek, open_with_failing_append_seek, getcwd_loop_answers); File::isExecutable = Directory::exists in the closed world (isExecutable_closed_world). Round 7: TRANSLATED, not hand-translated: the bodies of getDirectoryName, getBaseName (incl. `goto removeExtension` and both extension branches), getStem, getExtension and isAbsolutePath are regenerated from the current src/File.cpp into Nstd/Generated/PathScan.lean and proved equal to the model functions for every string and every fuel >= length + 1 (getDirectoryName_translated, getBaseName_translated, getStem_translated, getExtension_translated, isAbsolutePath_translated): the translated code never reads outside the buffer (terminator included), never wraps a usize, terminates, and returns the model's value — so the decomposition theorems speak about the current C++ text. simplifyPath is translated as well and proved equal to the model for every string (simplifyPath_translated: the component loop folds the model's sstep over chunks, the look-back loop is lookBack), so simplify_canonical/idem/equiv speak about the current C++ text; before translation static bool helper functions are inlined, written-out C-string comparisons normalised and the control flow brought into a canonical form (negation normal form of conditions, `for(;;) if(A){B;break;}` -> `while(!A); B`, a flag variable tested once -> goto), so behaviour-preserving restructurings of that kind keep the proof; a body that is a different program after normalisation (or that the translator refuses) falls to the second tier: bounded kernel checks of its translation (PropsScanCur.lean) and the correspondence run, announced as TIE DEGRADED in the evidence. The entry-type decision of the recursive Directory::unlink (d_type == DT_DIR, DT_UNKNOWN -> lstat + S_ISDIR, skip ./.., recurse vs File::unlink) is translated from the current src/Directory.cpp (tools/gen_path_unlink.py) and proved to be the decision of the model the never-follows-symlinks theorems are about (unlink_decision_translated, unlink_type_test_is_lstat: the type test does not follow links). File/Directory object life cycle (Obj.lean): for every history of open/close/isOpen/destructor on any number of objects, interleaved with File::copy under every fault and with every answer of the system calls inside open, an object is open iff it holds an open descriptor of the process, every descriptor of the process belongs to exactly one object (no_descriptor_leak; none once all objects are closed or destroyed), close is idempotent, a second open is refused and touches nothing, a failed open leaves nothing behind (lifecycle_invariant, isOpen_iff_holds_descriptor, close_idempotent, open_on_open_refused, open_result, copy_holds_nothing). The models are tied to the current sources on every run by executing identical op lines on model and real code (the object ops compare the number of open descriptors of the harness process after every item).",
+        "note": "Trusted: Lean kernel + propext/Classical.choice/Quot.sound; the translator tools/gen_path.py and its semantics of the C++ subset (pointers = offsets into a statically determined String, usize = Int with a non-negativity test, reads defined for 0 <= offset <= length, uninitialised locals rejected by a definite-assignment analysis, the three control-flow normalisations and the helper inlining are part of the trusted translator, String(p,n)/substr/String::compare(p,q)==0/append/shrinking resize = the Lean definitions of Nstd/Path/Cxx.lean — ASSUMED, subject of C06; strings hold no NUL); the HAND translation of everything else: getRelativePath, getAbsolutePath in Model.lean, all of FsLib.lean/FsMore.lean (File/Directory algorithms, POSIX branches, with fixes/path/*.patch applied) and Obj.lean (object life cycle) — validated by the correspondence run, not proved; TWO TIERS, decided per function on every run and written into the evidence (coverage.tie_levels, tie_degraded; log line TIE DEGRADED): tier 1 — the translation of the current body equals (up to local names) the recorded text the equality proofs were written for (tools/gen_path_proved/): the *_translated theorems are about the current C++ text; tier 2 — any other text: Generated/PathScan.lean keeps the proved text (<function>_isCurrent = false, the theorems then speak about the proved text, NOT the current one), the current translation (if the translator understands the body) is only TESTED by the kernel-evaluated bounded checks of PropsScanCur.lean (*_current_small, not theorems over all strings) and by the correspondence run; a refused body is tied by the correspondence run only; same for the unlink decision (decision_isCurrent); of Directory::unlink only the four deciding statements are translated (regular-expression shape match on the POSIX branch), the loop around them (readdir, error paths, final rmdir) is hand-translated; Obj.lean ASSUMES that descriptors 0, 1, 2 stay open (a successful ::open returning 0 would read as closed: the field stores the descriptor itself) and abstracts descriptor numbers (any unused number >= 3); the POSIX semantics of mkdir/rmdir/unlink/rename/open/readdir/stat/lstat/lseek/read/write/sendfile/symlink is ASSUMED: it is the Lean definition in Nstd/Path/Fs.lean and is compared with the real kernel (ext4/tmpfs under $TMPDIR) only through the snapshots of the correspondence run. Hypotheses of the unlink theorems: a plain path to the directory (its parent chain consists of real directories; links INSIDE the tree are arbitrary) and a well-formed world (names are names, no path stored twice, parents are directories) — the latter is proved for every history (wf_run) and additionally checked on every model state the run reaches; the model keeps the working directory and its ancestors (rmdir/rename of them are rejected), plain path (its parent chain consists of real directories; links INSIDE the tree are arbitrary). libc fnmatch is ASSUMED to behave as fnmatchM for patterns without '[' and '\\' (other patterns are not run). Residual stated as a theorem, not repaired: when the lseek of File::open's append branch fails, a file made by O_CREAT stays although open answers false; File::size whose restoring lseek fails leaves the position at the end. File::isExecutable is modelled only for the modes the library itself creates (0755 directories, 0644 files; the harness sets umask 022). Only tested by the correspondence, not proved: File::write(buffer,len) count, flush, getTempDirectory/getHomeDirectory, the time stamps of File::time, the harness-side fault interposition (sendfile, mkdir, readdir d_type, lseek, getcwd). szWildMatch7 belongs to the _WIN32 branch: its TEXT is cut out of the current Directory.cpp and compiled into the harness; the model assumes toLowerCase(x) != toLowerCase(0) for name bytes x != 0. The assumed kernel splits path strings at '/' only (a backslash is part of a name; Directory::create as repaired by fix 0010 does the same on POSIX) and rmdir answers EINVAL/ENOTEMPTY for a last component '.'/'..'. Outside: permissions, d_type == DT_UNKNOWN file systems, hard links, files unlinked/renamed while open, concurrent modification, the other Windows branches, paths climbing above the scratch world, isExecutable, getcwd longer than PATH_MAX.",
         "design_ref": "DESIGN.md 3/C19",
     }
 }
